@@ -47,9 +47,18 @@ def make_program(st, name, profile, prop, force=None):
 def corrupt(text, t):
     """One text-store fault; -> (corrupted text, fault descriptor)."""
     n = len(text)
-    kind = t.weighted([("truncate", 4), ("flip", 4), ("dup", 1), ("drop", 1.5), ("token", 2), ("torn", 1)])
+    kind = t.weighted([("truncate", 4), ("flip", 4), ("dup", 1), ("drop", 1.5), ("token", 2), ("torn", 1), ("number", 1.5)])
     if n == 0:
         return text, {"kind": "none"}
+    if kind == "number":
+        import re as _re
+
+        nums = [(m.start(), m.end()) for m in _re.finditer(r"(?<![A-Za-z_0-9.])[-+]?[0-9]+(?:\.[0-9]+)?(?:[eE][-+]?[0-9]+)?", text)]
+        if nums:
+            a, b = nums[t.randrange(len(nums))]
+            lit = t.choice(["1.0e999", "-2.5E+400", "1.0e-999", "99999999999999999999999999", "-99999999999999999999", "0000", "+5", "00.5", ".5", "5.", "1e5", "0x10", "1_000", "1.5.2", "--1", "1e", "-0", "-0.0", "9" * 400])
+            return text[:a] + lit + text[b:], {"kind": "number", "at": a, "lit": lit[:12]}
+        kind = "truncate"
     if kind == "truncate":
         o = t.randrange(n + 1) if not t.chance(0.2) else max(0, n - 1 - t.randrange(3))
         return text[:o], {"kind": "truncate", "at": o}
@@ -392,7 +401,8 @@ def plan_c11(run_seed):
     ntexts = t.randint(1, 2)
     for i in range(ntexts):
         profile = "exec" if t.chance(0.6) else "general"
-        prog, ov, cfg = make_program(st, "t%d" % i, profile, prop)
+        force = {"p_lets": 0.9, "p_letsize": 0.7, "p_maps": 0.8, "p_let_use": 0.6} if t.chance(0.35) else None
+        prog, ov, cfg = make_program(st, "t%d" % i, profile, prop, force)
         texts.append({"prog": prog, "noise": cfg["layout_noise"], "anon": cfg["anon"], "exec": profile == "exec", "ov": ov})
     enabled_passes = [p for p in PASSES if t.chance(0.7)] or ["expand_macros"]
     enabled_an = [a for a in ANALYSES if t.chance(0.7)] or ["generate"]
@@ -425,6 +435,14 @@ def plan_c11(run_seed):
             op = {"op": "pass", "name": name, "src": src}
             if name == "fill_in_let_O":
                 ov = dict(texts[ti]["ov"] or {})
+                x2 = t.random()
+                if x2 < 0.3:
+                    ov = {}
+                elif x2 < 0.6:
+                    # another dictionary than last time on this object
+                    for nm, v in texts[ti]["prog"]["lets"]:
+                        if t.chance(0.6):
+                            ov[nm] = t.choice(gen.INT_VALUES) if isinstance(v, int) else t.choice(gen.FLOAT_VALUES)
                 if t.chance(p_bad) and texts[ti]["prog"]["lets"]:
                     nm = t.choice(texts[ti]["prog"]["lets"])[0]
                     ov[nm] = t.choice([-1, 7, 100, 0])
@@ -653,6 +671,15 @@ def finish(S, plan, st, hist):
     text0 = None
     try:
         text0 = S.text(0) if plan.get("texts") else None
+        ops = S.plan.get("ops_materialised") or []
+        for v in S.viol:
+            j = v.get("op")
+            if v.get("sweep_text") is not None:
+                text0 = v["sweep_text"]
+                break
+            if isinstance(j, int) and j < len(ops) and "text" in ops[j]:
+                text0 = S.text(ops[j]["text"])
+                break
     except Exception:
         pass
     return {
@@ -781,10 +808,31 @@ def plan_c16_sweep(run_seed, st, t):
     return {"engine": "E1", "prop": "C16", "run_seed": run_seed, "texts": [e], "ops": [], "sweep": {"flips": 2, "flip_seed": t.randrange(1 << 30), "flags": t.chance(0.5)}, "tapes": None}
 
 
+def big_literal(text):
+    """Does the text ask for a lot of work by itself (a loop count or register size of 10
+    or more, possibly produced by a corruption)?  Then exceeding the step budget or
+    running out of memory is not a verdict: the budget cannot tell long from infinite."""
+    import re
+
+    for m in re.finditer(r"(?<![A-Za-z_0-9.])[0-9]+(?![0-9.eE])", text):
+        try:
+            if int(m.group(0)) >= 10:
+                return True
+        except ValueError:
+            return True
+    return False
+
+
 def check_type(S, j, op, o, text, allowed_extra=()):
     """I-type / I-live: the failure discipline of C16."""
     k = o["kind"]
     if k == "ok" or k == "JaqalError":
+        return
+    if op.get("via") == "file":
+        # Python's text layer hands the library universal newlines
+        text = text.replace("\r\n", "\n").replace("\r", "\n")
+    if k in ("nonterm", "exc:MemoryError") and big_literal(text):
+        S.probe("budget_verdict_waived_big_literal")
         return
     if k == "nonterm":
         S.viol.add("C16", "terminates", "nonterm", o["where"], "step budget exceeded", op=j)
@@ -925,6 +973,7 @@ def exec_c16(plan, role="main", order=None):
     st = Streams(plan["run_seed"], recorded=plan.get("tapes"))
     plan2 = dict(plan)
     plan2["texts"], ops = materialise_c16(plan)
+    plan2["ops_materialised"] = ops
     S = Session(plan2, st, role)
     S.twin_ref = {}
     hist = []
@@ -1115,7 +1164,19 @@ def plan_c10(run_seed):
         t.shuffle(perm2)
         seqs.append(perm2)
     e = {"prog": prog, "noise": cfg["layout_noise"], "anon": cfg["anon"], "exec": profile == "exec", "ov": ov}
-    return {"engine": "E1", "prop": "C10", "run_seed": run_seed, "texts": [e], "ops": [], "override": O, "sequences": seqs, "tapes": None}
+    # some sequences substitute under another dictionary O2 (all sequences start from the
+    # one shared parse, so anything a pass keeps between calls is exposed)
+    O2 = None
+    seq_ov = [0] * len(seqs)
+    if prog["lets"] and t.chance(0.5):
+        O2 = {}
+        for name, v in prog["lets"]:
+            if t.chance(0.6):
+                O2[name] = t.choice(gen.INT_VALUES) if isinstance(v, int) else t.choice(gen.FLOAT_VALUES)
+        if O2 == O:
+            O2 = {}
+        seq_ov = [1 if t.chance(0.4) else 0 for _ in seqs]
+    return {"engine": "E1", "prop": "C10", "run_seed": run_seed, "texts": [e], "ops": [], "override": O, "override2": O2, "seq_override": seq_ov, "sequences": seqs, "tapes": None}
 
 
 def token_kind(tok):
@@ -1132,6 +1193,8 @@ def exec_c10(plan):
     hist = []
     try:
         O = plan["override"] or {}
+        OVS = [O, plan.get("override2") if plan.get("override2") is not None else O]
+        seq_ov = plan.get("seq_override") or [0] * len(plan["sequences"])
         text = S.text(0)
         kw0 = S.parse_kwargs(0, {})
         o0 = seams.outcome_of(lambda: parse_jaqal_string(text, **kw0), S.clock, budget_parse(text))
@@ -1142,9 +1205,11 @@ def exec_c10(plan):
         c0 = o0["value"]
         BUD = 5_000_000
 
+        cur = [O]
+
         def apply(tok, c):
             name = {"M": "expand_macros", "Mp": "expand_macros_preserve", "L": "fill_in_let_O", "S": "expand_subcircuits", "A": "fill_in_map"}[tok]
-            return seams.outcome_of(S.pass_callable(name, O, c), S.clock, BUD)
+            return seams.outcome_of(S.pass_callable(name, cur[0], c), S.clock, BUD)
 
         def views(c, env):
             """three views of 'the same circuit' besides the library's own =="""
@@ -1169,8 +1234,8 @@ def exec_c10(plan):
                 S.viol.add("C10", "result_is_legal_circuit", "reparse:" + orp["kind"], orp.get("where", ""), "after %s the generated text is rejected: %s\n%s" % (label, orp.get("exc"), txt[:300]), op=j)
                 return
             try:
-                m1 = extract.meaning(c, O, with_counts=True)
-                m2 = extract.meaning(orp["value"], O, with_counts=True)
+                m1 = extract.meaning(c, cur[0], with_counts=True)
+                m2 = extract.meaning(orp["value"], cur[0], with_counts=True)
             except extract.Unresolvable:
                 S.probe("legality_unresolvable")
                 return
@@ -1180,6 +1245,7 @@ def exec_c10(plan):
 
         finals = []
         for si, seq in enumerate(plan["sequences"]):
+            cur[0] = OVS[seq_ov[si] if si < len(seq_ov) else 0]
             c = c0
             done = []
             ok = True
@@ -1202,7 +1268,7 @@ def exec_c10(plan):
                     S.viol.add("C10", "idempotent", "second_application:" + o2["kind"], o2.get("where", ""), "%s then %s again: %s" % (label, tok, o2.get("exc")), op=si)
                 else:
                     dd = o2["value"]
-                    va, vb = views(d, O), views(dd, O)
+                    va, vb = views(d, cur[0]), views(dd, cur[0])
                     try:
                         lib_eq = bool(d == dd) and bool(dd == d)
                     except BaseException as e:
@@ -1216,18 +1282,18 @@ def exec_c10(plan):
                 c = d
             hist.append((tuple(seq), ok))
             if ok:
-                finals.append((seq, c))
+                finals.append((seq, c, seq_ov[si] if si < len(seq_ov) else 0))
         # commute: same set of pass kinds => same meaning
         groups = {}
-        for seq, c in finals:
-            groups.setdefault(frozenset(token_kind(x) for x in seq), []).append((seq, c))
-        for kinds, items in groups.items():
+        for seq, c, ovi in finals:
+            groups.setdefault((frozenset(token_kind(x) for x in seq), ovi if OVS[0] != OVS[1] else 0), []).append((seq, c))
+        for (kinds, ovi), items in groups.items():
             if len(items) < 2:
                 continue
             ref = None
             for seq, c in items:
                 try:
-                    m = extract.meaning(c, O, with_counts=("S" not in kinds))
+                    m = extract.meaning(c, OVS[ovi], with_counts=("S" not in kinds))
                 except extract.Unresolvable:
                     S.probe("commute_unresolvable")
                     continue
@@ -1236,12 +1302,15 @@ def exec_c10(plan):
                 elif m != ref[1]:
                     S.viol.add("C10", "passes_commute", "mismatch", "", "orders %s and %s give different meanings" % ("".join(ref[0]), "".join(seq)), op=None)
                     S.viol[-1]["orders"] = ["".join(ref[0]), "".join(seq)]
+                    S.viol[-1]["override_used"] = OVS[ovi]
                     break
                 else:
                     S.probe("commute_compared")
         # parser flags == explicit passes
         flagsets = [({"expand_macro": True}, ["Mp"]), ({"expand_let": True}, ["L"]), ({"expand_let_map": True}, ["L", "A"]), ({"expand_macro": True, "expand_let": True, "expand_let_map": True}, ["Mp", "L", "A"])]
-        for flags, toks in flagsets:
+        for ovi, (flags, toks) in [(i, ft) for i in ((0, 1) if OVS[0] != OVS[1] else (0,)) for ft in flagsets]:
+            cur[0] = OVS[ovi]
+            O = OVS[ovi]
             kw = dict(kw0)
             kw.update(flags)
             if "expand_let" in flags or "expand_let_map" in flags:
@@ -1266,7 +1335,7 @@ def exec_c10(plan):
                 if lib_eq is False or (va is not None and vb is not None and va != vb):
                     S.viol.add("C10", "parser_flags_equal_passes", "mismatch", "", "flags %r differ from passes %s" % (sorted(flags), "".join(toks)), op=None)
                 S.probe("flags_compared")
-        S.log.append(hexdigest([(tuple(s), snapshot.digest(c)) for s, c in finals]))
+        S.log.append(hexdigest([(tuple(s), snapshot.digest(c)) for s, c, _ in finals]))
         rec = finish(S, plan, st, hist)
     finally:
         S.close()
@@ -1313,6 +1382,12 @@ def candidates(plan):
             ov = dict(plan["override"])
             del ov[k]
             yield variant(override=ov)
+        if plan.get("override2") is not None:
+            yield variant(override2=None, seq_override=[0] * len(seqs))
+            for k in list(plan["override2"]):
+                ov = dict(plan["override2"])
+                del ov[k]
+                yield variant(override2=ov)
     else:
         ops = plan["ops"]
         n = len(ops)
